@@ -43,6 +43,35 @@ META = dict(
 )
 HN = {'hybrid_ndarray.*resize': 3, 'detail_init_': 3}   # constant-trip (rank-1) helper loops of hybrid_ndarray<T,8,1>
 UNITS = [
+    # concrete-geometry bounded units: the real selecting / replicating / joining views end to end
+    Unit('k.tile.bounded', 'c04k', 'verif_k_tile', mode='bp', plain=True, unwind=14, unwind_loops={'.': 14}, timeout=1500, object_bits=12,
+         bounded='one concrete geometry, symbolic int elements, all loops unwound 14 times', waive=[r'arithmetic overflow on (signed to unsigned|unsigned to signed) type conversion'],
+         clause='tile reps (2,1) of a (2,3) array: shape and every element as NumPy'),
+    Unit('k.repeat_axis.bounded', 'c04k', 'verif_k_repeat_axis', mode='bp', plain=True, unwind=14, unwind_loops={'.': 14}, timeout=1500, object_bits=12,
+         bounded='one concrete geometry, symbolic int elements, all loops unwound 14 times', waive=[r'arithmetic overflow on (signed to unsigned|unsigned to signed) type conversion'],
+         clause='repeat 2 along axis 0: shape and every element as NumPy'),
+    Unit('k.roll_axis.bounded', 'c04k', 'verif_k_roll_axis', mode='bp', plain=True, unwind=14, unwind_loops={'.': 14}, timeout=1500, object_bits=12,
+         bounded='one concrete geometry, symbolic int elements, all loops unwound 14 times', waive=[r'arithmetic overflow on (signed to unsigned|unsigned to signed) type conversion'],
+         clause='roll by 1 along axis 1: shape and every element as NumPy'),
+    Unit('k.roll_flat.bounded', 'c04k', 'verif_k_roll_flat', mode='bp', plain=True, unwind=14, unwind_loops={'.': 14}, timeout=1500, object_bits=12,
+         bounded='one concrete geometry, symbolic int elements, all loops unwound 14 times', waive=[r'arithmetic overflow on (signed to unsigned|unsigned to signed) type conversion'],
+         clause='roll by 2 with axis None (flattened order, shape kept): shape and every element as NumPy'),
+    Unit('k.pad.bounded', 'c04k', 'verif_k_pad', mode='bp', plain=True, unwind=14, unwind_loops={'.': 14}, timeout=1500, object_bits=12,
+         bounded='one concrete geometry, symbolic int elements, all loops unwound 14 times', waive=[r'arithmetic overflow on (signed to unsigned|unsigned to signed) type conversion'],
+         clause='pad widths before (0,1) / after (1,0) with zeros: shape and every element as NumPy'),
+    Unit('k.take.bounded', 'c04k', 'verif_k_take', mode='bp', plain=True, unwind=14, unwind_loops={'.': 14}, timeout=1500, object_bits=12,
+         bounded='one concrete geometry, symbolic int elements, all loops unwound 14 times', waive=[r'arithmetic overflow on (signed to unsigned|unsigned to signed) type conversion'],
+         clause='take indices (2,0) along axis 1: shape and every element as NumPy'),
+    Unit('k.diagonal.bounded', 'c04k', 'verif_k_diagonal', mode='bp', plain=True, unwind=14, unwind_loops={'.': 14}, timeout=1500, object_bits=12,
+         bounded='one concrete geometry, symbolic int elements, all loops unwound 14 times', waive=[r'arithmetic overflow on (signed to unsigned|unsigned to signed) type conversion'],
+         clause='diagonal with offset 1 of a (2,3) array: shape and every element as NumPy'),
+    Unit('k.tril.bounded', 'c04k', 'verif_k_tril', mode='bp', plain=True, unwind=14, unwind_loops={'.': 14}, timeout=1500, object_bits=12,
+         bounded='one concrete geometry, symbolic int elements, all loops unwound 14 times', waive=[r'arithmetic overflow on (signed to unsigned|unsigned to signed) type conversion'],
+         clause='tril k=0: shape and every element as NumPy'),
+    Unit('k.triu.bounded', 'c04k', 'verif_k_triu', mode='bp', plain=True, unwind=14, unwind_loops={'.': 14}, timeout=1500, object_bits=12,
+         bounded='one concrete geometry, symbolic int elements, all loops unwound 14 times', waive=[r'arithmetic overflow on (signed to unsigned|unsigned to signed) type conversion'],
+         clause='triu k=1: shape and every element as NumPy'),
+
     Unit('shape_tile.uf', 'c04', 'verif_shape_tile', mode='uf', unwind=10, unwind_loops=HN, clause='tile: shape'),
     Unit('tile.uf', 'c04', 'verif_tile', mode='uf', unwind=10, unwind_loops=HN, clause='tile: source index'),
     Unit('shape_roll.bp', 'c04', 'verif_shape_roll', mode='bp', unwind=10, unwind_loops=HN, clause='roll: shape'),
